@@ -359,6 +359,7 @@ pub fn check_c03(case: &HistoryCase, obs: &Obs, rep: &mut Report) {
         );
         return;
     }
+    note_mechanisms(&obs.model, rep);
     // sorted output must carry the same schema
     match extract_tree(&obs.out_sorted) {
         Ok((_, t)) => {
@@ -1130,6 +1131,19 @@ pub fn run_case(case: &HistoryCase, oracle: Oracle, rep: &mut Report) {
             }
             rep.add("documents", case.docs.len() as u64);
             rep.max("max_documents_in_history", case.docs.len() as u64);
+            // what kind of executions were observed
+            let fam: &str = case.origin.split(':').take(2).last().unwrap_or("");
+            let fam = if case.origin.starts_with("random:") { fam } else { case.origin.split(':').next().unwrap_or("") };
+            rep.count(&format!("histories from family {}", fam));
+            if case.across_threads {
+                rep.count("histories with every step on a fresh thread");
+            }
+            if case.failed_parse_first {
+                rep.count("histories preceded by a rejected parse on the same thread");
+            }
+            rep.add("schema_positions_in_reference_models", obs.model.count_nodes() as u64);
+            rep.max("max_elements_in_one_document", case.docs.iter().map(|d| d.root.count_elems()).max().unwrap_or(0) as u64);
+            rep.max("max_depth_of_one_document", case.docs.iter().map(|d| d.root.depth()).max().unwrap_or(0) as u64);
             oracle(case, &obs, rep);
         }
         Err(ObsError::Parse(i, e)) => {
